@@ -4,17 +4,18 @@
 
    time     = Z ticks (the harness uses store.stamp = tick * 0.125, exact in binary64)
    keys/tags= Z (interned by the harness: field f<k>, tag t<n>)
-   value    = VZ int | VL list-of-int (the sequence drained by rule streak)
+   value    = VZ int | VL list-of-int (list / deque drained by rule streak) | VM ordered mapping int->int
+              (dict / OrderedDict drained by rule streak, logged as (key, value) items = VP)
    share    = data (insertion-ordered fields), stamp (None = never stamped), deck
    file     = list of lines: Hdr rule columns | Rec time cells   (cell None = bare tab, the
               field is not in the loggee / deck entry)
-   Not modelled: field deletion, binary kind, MutableMapping streak values, console output,
+   Not modelled: field deletion, binary kind, console output,
    list values aliased by [change]'s lasts (the harness never gives rule change a list field).  *)
 From Coq Require Import List ZArith Bool.
 Import ListNotations.
 Open Scope Z_scope.
 
-Inductive val := VZ (z : Z) | VL (l : list Z).
+Inductive val := VZ (z : Z) | VL (l : list Z) | VM (m : list (Z * Z)) | VP (k v : Z).
 Definition key := Z.
 Definition data := list (key * val).
 Inductive dentry := DMap (m : list (key * Z)) | DOther (z : Z).
@@ -37,6 +38,7 @@ Inductive op :=
 | Chg (s : nat) (kvs : data)              (* share.change(kvs): fields only    *)
 | Push (s : nat) (e : dentry)             (* share.push(e)                     *)
 | Append (s : nat) (k : key) (x : Z)      (* share[k].append(x)                *)
+| Put (s : nat) (k : key) (mk mv : Z)     (* share[k][mk] = mv (dict item)     *)
 | Run | Start | Stop.                     (* logger.runner.send(RUN|START|STOP) *)
 
 Record st := {
@@ -82,6 +84,18 @@ Definition app_val (k : key) (x : Z) (d : data) : data :=
   | _ => d
   end.
 
+(* dict item assignment: an existing key keeps its position, a new key goes last *)
+Fixpoint setz (k v : Z) (m : list (Z * Z)) : list (Z * Z) :=
+  match m with
+  | [] => [(k, v)]
+  | (k', v') :: m' => if Z.eqb k k' then (k', v) :: m' else (k', v') :: setz k v m'
+  end.
+Definition put_val (k : key) (mk mv : Z) (d : data) : data :=
+  match lookup k d with
+  | Some (VM m) => set1 k (VM (setz mk mv m)) d
+  | _ => d
+  end.
+
 (* ---- one log line of Log.log: every prepared field of every loggee ----------- *)
 Definition cells_of (ss : list share) (lg : loggee) (fs : list key) : list (option val) :=
   map (fun k => lookup k (sdata (getsh ss (snd (fst lg))))) fs.
@@ -117,10 +131,18 @@ Definition set_now (s : st) (t : Z) : st :=
 Definition dolog (c : cfg) (s : st) : st :=
   set_log s (Some (now s)) (putline (file s) [Rec (now s) (cells (shares s) (clog c) (pfields s))]).
 
+Fixpoint lzz_eqb (a b : list (Z * Z)) : bool :=
+  match a, b with
+  | [], [] => true
+  | (k, v) :: a', (k', v') :: b' => Z.eqb k k' && Z.eqb v v' && lzz_eqb a' b'
+  | _, _ => false
+  end.
 Definition val_eqb (a b : val) : bool :=
   match a, b with
   | VZ x, VZ y => Z.eqb x y
   | VL x, VL y => if list_eq_dec Z.eq_dec x y then true else false
+  | VM x, VM y => lzz_eqb x y
+  | VP a b, VP a' b' => Z.eqb a a' && Z.eqb b b'
   | _, _ => false
   end.
 Definition oval_eqb (a b : option val) : bool :=
@@ -152,6 +174,9 @@ Definition streak_field (ss : list share) (lg : loggee) (fs : list key) : option
 
 Definition streak_recs (t : Z) (l : list Z) : list line := map (fun x => Rec t [Some (VZ x)]) l.
 
+Definition mstreak_recs (t : Z) (m : list (Z * Z)) : list line :=
+  map (fun kv => Rec t [Some (VP (fst kv) (snd kv))]) m.
+
 Definition log_streak (c : cfg) (s : st) : st :=
   match clog c, pfields s with
   | lg :: _, fs :: _ =>
@@ -164,6 +189,11 @@ Definition log_streak (c : cfg) (s : st) : st :=
                          (fun sh => {| sdata := set1 k (VL []) (sdata sh);
                                        sstamp := sstamp sh; sdeck := sdeck sh |})))
                       (Some (now s)) (putline (file s) (streak_recs (now s) l))
+          | Some (VM m) =>      (* popitem() takes the newest item, appendleft() restores insertion order: FIFO *)
+              set_log (set_shares s (upd (shares s) i
+                         (fun sh => {| sdata := set1 k (VM []) (sdata sh);
+                                       sstamp := sstamp sh; sdeck := sdeck sh |})))
+                      (Some (now s)) (putline (file s) (mstreak_recs (now s) m))
           | Some v => set_log s (Some (now s)) (putline (file s) [Rec (now s) [Some v]])
           | None => set_log s (Some (now s)) (file s)
           end
@@ -289,6 +319,8 @@ Definition step (c : cfg) (s : st) (o : op) : st :=
   | Chg i kvs => set_shares s (upd (shares s) i (fun sh => wr kvs (sstamp sh) sh))
   | Push i e => set_shares s (upd (shares s) i
                   (fun sh => {| sdata := sdata sh; sstamp := sstamp sh; sdeck := sdeck sh ++ [e] |}))
+  | Put i k mk mv => set_shares s (upd (shares s) i
+                  (fun sh => {| sdata := put_val k mk mv (sdata sh); sstamp := sstamp sh; sdeck := sdeck sh |}))
   | Append i k x => set_shares s (upd (shares s) i
                   (fun sh => {| sdata := app_val k x (sdata sh); sstamp := sstamp sh; sdeck := sdeck sh |}))
   | Start => set_active (action c (prepare c (reopen s))) true
